@@ -55,6 +55,18 @@ def get_path(obj, path):
     return obj
 
 
+FRACTIONS = [0.1, 1.0 / 3.0, 0.7, 1e-7, 2.0 / 3.0]
+
+
+def hard_float(L, k, j):
+    """a double that is pairwise distinct over (L, k) and NOT exactly representable in binary32 (nor in any narrower
+    type): a non-dyadic fraction, for every other field on top of an integer part beyond 2**24"""
+    base = 1000.0 * L + k + (16777216.0 + 1.0 if L % 2 else 0.0)
+    x = base + FRACTIONS[(L + k + j) % len(FRACTIONS)]
+    assert float(np.float32(x)) != x
+    return x
+
+
 def build(cls, n, nan, variant):
     msgs = []
     for i in range(n):
@@ -65,7 +77,7 @@ def build(cls, n, nan, variant):
                 if name == 'p1_time' and i in nan:
                     nv = Timestamp()
                 else:
-                    nv = Timestamp(100.0 + 50.0 * L + i + 0.123456789 + L * 1e-6)
+                    nv = Timestamp(1300000000.0 + 50.0 * L + i + 0.123456789 + L * 1e-6)      # needs the full binary64 significand
             elif is_enum(v):
                 members = list(type(v))
                 k = (L + i) % len(members)
@@ -88,13 +100,13 @@ def build(cls, n, nan, variant):
             elif isinstance(v, (bool, np.bool_)):
                 nv = bool((L + i) % 2 == 0)
             elif isinstance(v, (int, np.integer)):
-                nv = (7 * L + i) % 200 + 1
+                nv = 2 ** 31 + (7 * L + i) % 200 + 1       # beyond int32 and beyond the integers exact in binary32; fits uint32
             elif isinstance(v, (float, np.floating)):
-                nv = 1000.0 * L + i + 0.5
+                nv = hard_float(L, i, 0)
             elif isinstance(v, np.ndarray) and v.dtype.kind in 'fiu' and v.size > 0:
                 nv = v.copy()
                 for j in range(nv.size):
-                    nv.flat[j] = ((7 * L + 17 * i + j) % 120 + 1) if v.dtype.kind in 'iu' else (1000.0 * L + 10.0 * i + j + 0.25)
+                    nv.flat[j] = (int(np.iinfo(v.dtype).max) - (7 * L + 17 * i + j) % 120) if v.dtype.kind in 'iu' else hard_float(L, 10 * i + j, j)
             else:
                 continue
             set_path(m, path, nv)
